@@ -3,17 +3,16 @@
    Model: Mux/Model.v (the trie of mux.go + group.go as of /repo de9a2b8), spec and the
    definitions used below: Mux/Spec.v.
 
-   Proved in full for ONE Mux (any path prefix, no mounts) and ANY list of Handle / AddListener
-   calls, the panicking ones included: fetch_spec, lookup_most_specific_flat,
-   params_exact_group_spec_flat, lookup_total_flat, registration_complete (fresh mux).
-   For tries with mounted muxes only the handler-identity half of lookup_most_specific is proved,
-   for every trie however built (lookup_most_specific_any_trie_partial); NOT proved for mounts:
-   that the registered patterns of the trie built by Mount/Route are the full patterns of the op
-   list, lookup_total, params/group through mount points (mi rebasing) and arrangement_invariant
-   (only arrangement_example, a computation).  Those are covered by the correspondence harness and
-   the oracle of Run/Run_C06.v. *)
+   Proved, for EVERY accepted op list (NewMux / Handle / AddListener / Mount / Route in any order and
+   nesting) and every mux of it: mount_patterns, lookup_most_specific, lookup_total,
+   params_exact_group_spec (through any number of mount points), accepted_full_patterns_distinct,
+   arrangement_invariant.  For one Mux without mounts the same statements also hold for op lists with
+   rejected (panicking) calls in them (the *_flat theorems), and registration_complete on a fresh mux.
+   Not proved: the listeners half of the result (which listener ids are returned) - covered by the
+   correspondence harness and oracle code V7 only. *)
 From Coq Require Import String.
-From GoRes Require Import Mux.Spec Mux.ProofsMatch Mux.ProofsFlat Mux.ProofsTop Mux.ProofsReg Mux.ProofsGroup Mux.ProofsPG.
+From GoRes Require Import Mux.Spec Mux.ProofsMatch Mux.ProofsFlat Mux.ProofsTop Mux.ProofsReg Mux.ProofsGroup Mux.ProofsPG
+  Mux.ProofsMountSt Mux.ProofsTotal Mux.ProofsMountLookup Mux.ProofsExact Mux.ProofsUniq Mux.ProofsArr Mux.ProofsLoc.
 Open Scope N_scope.
 
 (* ---- fetch_spec: a registration adds exactly its own pattern (as a skeleton: placeholder
@@ -75,14 +74,100 @@ Theorem lookup_total_flat : forall path ops name,
   is_valid_path path = true -> get_handler (flat_state path ops) 0 name <> LPanic.
 Proof. exact lookup_total_flat_pf. Qed.
 
-(* ---- lookup_most_specific for ANY trie (mounted nodes included, however it was built):
-   what GetHandler returns is the handler of a registered pattern that matches and that no matching
-   registered pattern beats; nil only when no registered pattern matches.
-   PARTIAL for mounts: not proved (a) that the registered patterns of the trie built by
-   Mount/Route are the full patterns of the op list, (b) that the lookup does not panic and
-   (c) params/group through mount points (mi rebasing) - these are covered by the
-   correspondence harness and the oracle only. ---- *)
-Theorem lookup_most_specific_any_trie_partial : forall root path name sub,
+(* ================= mounted arrangements: any accepted op list =================
+   [run_all [] ops = Some st]: every operation of ops (NewMux / Handle / AddListener / Mount / Route, in
+   any order, on any of the muxes) is accepted; [desugar ops 0] is ops with every Route replaced by
+   NewMux("") ; the callback's calls ; Mount (run_all_desugar: it runs to the same state);
+   [handles ..] are its Handle calls; [top_of st k = Some (t, a)]: mux k's root is the node at the
+   literal path a of top-level mux t (pure bookkeeping of the Mount calls). *)
+
+(* mount_patterns: the registered patterns of every top-level trie are exactly the full patterns
+   (mount position of the mux ++ pattern) of the Handle calls that ended up in it *)
+Theorem mount_patterns : forall ops st, run_all [] ops = Some st ->
+  forall t p T, nth_error st t = Some (p, Top T) -> forall q hid,
+  has_hid T q hid <->
+  exists r a, In r (handles (desugar ops 0)) /\ sr_hid r = hid /\
+              top_of st (sr_mux r) = Some (t, a) /\ q = skel (map ptok_of (a ++ split_pattern (sr_pat r))).
+Proof. exact mount_patterns_skel_pf. Qed.
+(* the same with the positions computed from the op list alone: [slocs ops'] folds the NewMux and Mount
+   calls (path of the parent's root ++ mount path ++ sub-mux path), never looking at a trie; it agrees
+   with the model's bookkeeping *)
+Theorem mount_patterns_from_ops : forall ops st, run_all [] ops = Some st ->
+  let ops' := desugar ops 0 in
+  forall t p T, nth_error st t = Some (p, Top T) -> forall q hid,
+  has_hid T q hid <->
+  exists r, In r (handles ops') /\ sr_hid r = hid /\ top_mux (slocs ops') (sr_mux r) = Some t /\
+            q = skel (map ptok_of (full_toks (slocs ops') r)).
+Proof. exact mount_patterns_ops_pf. Qed.
+Theorem slocs_spec : forall ops st, run_all [] ops = Some st ->
+  forall k, nth_error (slocs (desugar ops 0)) k =
+            match top_of st k with Some (t, a) => Some (path_of st k, t, a) | None => None end.
+Proof. exact slocs_spec_pf. Qed.
+Theorem route_is_new_calls_mount : forall ops st st', run_all st ops = Some st' ->
+  run_all st (desugar ops (length st)) = Some st'.
+Proof. exact run_all_desugar. Qed.
+
+(* lookup_most_specific for every mux k of every accepted arrangement: [mcands st R k] are the Handle
+   calls at or below k's root with their pattern relative to it; GetHandler on k returns the handler of
+   the most specific one matching the name (after k's own path prefix), nil when none matches *)
+Theorem lookup_most_specific : forall ops st k name,
+  run_all [] ops = Some st -> (k < length st)%nat -> validate_listeners st k = true ->
+  match spec_strip (path_of st k) name with
+  | None => get_handler st k name = LNone
+  | Some tk =>
+    match best_of ckey (mcands st (handles (desugar ops 0)) k) tk with
+    | None => get_handler st k name = LNone
+    | Some x => exists ls ps g, get_handler st k name = LHit (sr_hid (snd x)) ls ps g
+    end
+  end.
+Proof. exact lookup_most_specific_pf. Qed.
+
+(* params_exact and group_spec through any number of mount points: the reported params are exactly the
+   name's tokens at the $-placeholders of the (relative) full pattern of the matched Handle call, and the
+   group is that call's template with its ${tags} substituted (the resource name when no group is set,
+   "" for Parallel) *)
+Theorem params_exact_group_spec : forall ops st k name,
+  run_all [] ops = Some st -> (k < length st)%nat -> validate_listeners st k = true ->
+  match spec_strip (path_of st k) name with
+  | None => get_handler st k name = LNone
+  | Some tk =>
+    match best_of ckey (mcands st (handles (desugar ops 0)) k) tk with
+    | None => get_handler st k name = LNone
+    | Some x => exists ls gs,
+        get_handler st k name = LHit (sr_hid (snd x)) ls (pvalues (map ptok_of (fst x)) tk) gs /\
+        group_spec_of (sr_par (snd x)) (sr_grp (snd x)) name (pvalues (map ptok_of (fst x)) tk) = Some gs
+    end
+  end.
+Proof. exact lookup_exact_pf. Qed.
+(* the candidates of a mux have pairwise different pattern skeletons: [x] above is THE registration *)
+Theorem accepted_full_patterns_distinct : forall ops st k x y, run_all [] ops = Some st ->
+  In x (mcands st (handles (desugar ops 0)) k) -> In y (mcands st (handles (desugar ops 0)) k) ->
+  ckey x = ckey y -> x = y.
+Proof. exact mcands_unique. Qed.
+
+(* lookup_total for every mux of every accepted arrangement: every params / group index read through
+   any number of mount points is in range *)
+Theorem lookup_total : forall ops st k name, run_all [] ops = Some st -> (k < length st)%nat ->
+  get_handler st k name <> LPanic.
+Proof. exact lookup_total_pf. Qed.
+
+(* arrangement_invariant: two accepted arrangements (flat, Mount, Route, path prefixes, in any nesting)
+   whose muxes k1 / k2 see the same relative full patterns with the same handler ids, group templates and
+   Parallel flags answer alike (same handler, same params, same group for the same resource name) on
+   names with the same tokens below the mux path; ValidateListeners must pass on both *)
+Theorem arrangement_invariant : forall ops1 st1 k1 name1 ops2 st2 k2 name2,
+  run_all [] ops1 = Some st1 -> run_all [] ops2 = Some st2 ->
+  (k1 < length st1)%nat -> (k2 < length st2)%nat ->
+  validate_listeners st1 k1 = true -> validate_listeners st2 k2 = true ->
+  spec_strip (path_of st1 k1) name1 = spec_strip (path_of st2 k2) name2 ->
+  (forall e, In e (map cproj (mcands st1 (handles (desugar ops1 0)) k1)) <->
+             In e (map cproj (mcands st2 (handles (desugar ops2 0)) k2))) ->
+  same_result name1 name2 (get_handler st1 k1 name1) (get_handler st2 k2 name2).
+Proof. exact arrangement_invariant_pf. Qed.
+
+(* for ANY trie (however built): what GetHandler returns is the handler of a registered pattern that
+   matches and that no matching registered pattern beats; nil only when no registered pattern matches *)
+Theorem lookup_most_specific_any_trie : forall root path name sub,
   strip_path path name = SName sub -> wild_handled root ->
   match get_handler_node path root name with
   | LNone => forall p h, has_pattern root p h -> pmatch p (tokens sub) = false
@@ -173,3 +258,24 @@ Example arrangement_example :
           [s2b "a.b.c"; s2b "a.b.zz"; s2b "a.b"; s2b "a.x.y"; s2b "a"; s2b "b"; s2b "a.b."; s2b "a.b.c.d"] = true /\
   get_handler nested 1 (s2b "b.q") = LHit 1 [] [(s2b "x", s2b "q")] (s2b "g.q").
 Proof. vm_compute. repeat split. Qed.
+
+(* non-vacuity of arrangement_invariant: a flat mux and a doubly routed one see the same patterns *)
+Definition arr_flat : list op :=
+  [ONew []; OHandle 0 (s2b "a.b.$x") 1 (s2b "g.${x}") false; OHandle 0 (s2b "a.b.c") 2 [] false;
+   OHandle 0 (s2b "a.>") 3 [] false].
+Definition arr_routed : list op :=
+  [ONew []; ORoute 0 (s2b "a") [RRoute (s2b "b") [RHandle (s2b "$x") 1 (s2b "g.${x}") false;
+                                                 RHandle (s2b "c") 2 [] false];
+                                RHandle (s2b ">") 3 [] false]].
+Example arrangement_nonvacuous : exists st1 st2,
+  run_all [] arr_flat = Some st1 /\ run_all [] arr_routed = Some st2 /\
+  validate_listeners st1 0 = true /\ validate_listeners st2 0 = true /\
+  (forall e, In e (map cproj (mcands st1 (handles (desugar arr_flat 0)) 0)) <->
+             In e (map cproj (mcands st2 (handles (desugar arr_routed 0)) 0))) /\
+  get_handler st2 0 (s2b "a.b.zz") = LHit 1 [] [(s2b "x", s2b "zz")] (s2b "g.zz") /\
+  get_handler st2 2 (s2b "zz") = LHit 1 [] [(s2b "x", s2b "zz")] (s2b "g.zz").
+Proof.
+  eexists. eexists. split; [vm_compute; reflexivity|]. split; [vm_compute; reflexivity|].
+  split; [vm_compute; reflexivity|]. split; [vm_compute; reflexivity|].
+  split; [intros e; vm_compute; tauto|]. split; vm_compute; reflexivity.
+Qed.
